@@ -33,10 +33,10 @@ type node struct {
 	A   []node `json:"a,omitempty"`   // operands
 }
 
-func nInt(i int64) node          { return node{K: "int", N: i} }
-func nStr(s string) node         { return node{K: "str", S: s} }
-func nNull() node                { return node{K: "null"} }
-func nCol(q, c string) node      { return node{K: "col", Q: q, C: c} }
+func nInt(i int64) node             { return node{K: "int", N: i} }
+func nStr(s string) node            { return node{K: "str", S: s} }
+func nNull() node                   { return node{K: "null"} }
+func nCol(q, c string) node         { return node{K: "col", Q: q, C: c} }
 func nBin(k string, a, b node) node { return node{K: k, A: []node{a, b}} }
 func nCmp(op string, a, b node) node {
 	return node{K: "cmp", Op: op, A: []node{a, b}}
